@@ -470,7 +470,7 @@ def explore(job):
         subsets = []
         for r in range(len(names) + 1):
             subsets += [list(c) for c in itertools.combinations(names, r)]
-        nvar = NVARIANTS if tier != "quick" else (3 if len(names) <= 5 else 2)
+        nvar = NVARIANTS if tier != "quick" else (2 if len(names) <= 5 else 1)
         cases = [(None, False, "factory", -1), (None, False, "dir", -1)]
         for si, sub in enumerate(subsets):
             vs = [(si + j * 5) % NVARIANTS for j in range(nvar)] if nvar < NVARIANTS else range(NVARIANTS)
